@@ -7,6 +7,26 @@ ROOT = os.path.dirname(os.path.dirname(os.path.abspath(__file__)))
 
 # id -> (technique, level text, level note, design ref)
 CHECKS = {
+ "C01": ("PBT (rapid): generated programs -> real generators -> goimports pass (x/tools/imports) -> go/types type-checker in the loop",
+         "Program Specs from the types and sql profiles are analysed by the real gomacro, each of the three Go generators (sqlcrud with generate-sets on/off) is run, the import-fixing pass the tool applies is run, and the result is type-checked with go/types next to the source package. Exploration: held on every generated accepted input; known findings are excluded by construction and counted.",
+         "Trusts go/types + x/tools/imports as the definition of 'compiles'; in-process loader cross-checked against analysis.LoadSource; lib/pq replaced by a signature-level stand-in.",
+         "DESIGN.md §4 C01"),
+ "C10": ("PBT (rapid): generated const-declaration styles vs reference enum table carried by the generator",
+         "Enum-stress programs (every declaration style of the quantifier, sub-packages, same names in two packages) are analysed and every observable named basic type is compared with the expected member table (names, exact values, trailing comments, opt-outs) and both directions of the iota flag. Exploration.",
+         "Expected values are computed by the synthesiser from the iota form it wrote, not by go/types; only types reachable from the analysed file are observable.",
+         "DESIGN.md §4 C10"),
+ "C11": ("PBT (rapid): generated interfaces/implementers vs membership computed from rendered method sets (own model of Go method-set rules)",
+         "Union-stress programs (near misses, foreign implementers, embedded interfaces, zero-method and memberless interfaces, aliases) are analysed; Union.Members and Struct.Implements of every node reachable by following links are compared with the model; a memberless interface that is reached must be refused. Exploration.",
+         "The oracle is a hand-written model of value method sets (promotion through embedded structs, shadowing, package-qualified unexported names), independent of types.Implements.",
+         "DESIGN.md §4 C11"),
+ "C12": ("PBT (rapid): independent go/types walk as reference for closure, faithfulness, link consistency, termination and source order",
+         "Programs with recursion, aliases, generics, sub-package and std types are analysed; an independent walk over go/types decides closure of Analysis.Types, kind/length/key/element of every node, Type() identity modulo predefined time types, every link, termination (write-ahead case + fresh-process confirmation for fatal stack overflows) and source order. Exploration.",
+         "go/types is the ground truth for the Go side; union members come from the Spec model.",
+         "DESIGN.md §4 C12"),
+ "C18": ("PBT (rapid): hostile program generator, recovered panic classified runtime.Error vs diagnostic; worker death detected through a write-ahead case",
+         "Hostile-profile programs (legal unusual spellings + unsupported forms in every position, plus sql-profile model files) go through analysis and seven generator stages under recover; a runtime.Error or a dead worker is a violation, any other panic value a diagnostic. Exploration.",
+         "A panic value implementing runtime.Error is a crash, anything else is an explicit diagnostic; typescript/api is exercised by C13/C14.",
+         "DESIGN.md §4 C18"),
  "C19": ("PBT (rapid) + exhaustive small scope: reference implementation / validity predicate / permutation metamorphic relation",
          "Generated declaration lists (random up to length 200 with heavy ID collisions, and every list up to length 5 over a 3-ID alphabet with all permutations) are assembled by the real WriteDeclarations and compared with a ten-line reference and a two-sided validity predicate; permutation invariance is a metamorphic check. Exploration: holds on everything generated, exhaustive only inside the small scope.",
          "Trusts only the Go toolchain; where the statement leaves freedom (same ID with both priorities, same ID with different contents) every reading is accepted.",
